@@ -951,6 +951,231 @@ def _packet_bytes_from_digest(descs, o):
 
 
 # ----------------------------------------------------------------------------- case construction
+# ----------------------------------------------------------------------------- several parsers
+MULTI_DRIVERS = ['parser', 'source', 'tcp_server', 'unix']
+SHAPES = [
+    ['P', [4, 0x0e, 0], 0, 0],                 # event, empty
+    ['P', [4, 0x3e, 2, 9, 8], 0, 0],           # event, 2 bytes
+    ['P', [1, 3, 0x0c, 0], 0, 0],              # command, empty
+    ['P', [2, 1, 0x20, 1, 0, 0x55], 0, 0],     # ACL, 1 byte
+    ['P', [5, 1, 0, 0, 0], 0, 0],              # ISO, empty
+    ['P', [3, 1, 0, 1, 0x77], 0, 0],           # SCO, 1 byte
+]
+
+
+def multi_own_ops(pr):
+    """one parser's own operations in order: ('R', c) construct (first client) / reset or
+    connect (later clients), then ('D', c, j) for the chunks of client c"""
+    ops = []
+    for c, cl in enumerate(pr['clients']):
+        ops.append(('R', c))
+        for j in range(len(client_chunks(cl))):
+            ops.append(('D', c, j))
+    return ops
+
+
+def multi_plan(c):
+    """the global order: schedule[k] = index of the parser that performs its next own op"""
+    own = [multi_own_ops(pr) for pr in c['parsers']]
+    pos = [0] * len(own)
+    plan = []
+    for i in c['schedule']:
+        if pos[i] < len(own[i]):
+            plan.append((i,) + own[i][pos[i]])
+            pos[i] += 1
+    for i in range(len(own)):            # whatever the schedule did not cover, in parser order
+        while pos[i] < len(own[i]):
+            plan.append((i,) + own[i][pos[i]])
+            pos[i] += 1
+    return plan
+
+
+def impl_multi(c):
+    """k independent framers alive in one process, driven in the interleaved order.
+    Returns res[i][client][chunk] = outputs."""
+    from bumble.transport import common
+
+    async def main():
+        k = len(c['parsers'])
+        chunks = [[client_chunks(cl) for cl in pr['clients']] for pr in c['parsers']]
+        res = [[[None] * len(ch) for ch in chunks[i]] for i in range(k)]
+        recs = [Recorder() for _ in range(k)]
+        objs = [None] * k            # parser / source / (transport, factory)
+        protos = [None] * k
+        try:
+            for step in multi_plan(c):
+                i, kind, cidx = step[0], step[1], step[2]
+                drv = c['parsers'][i]['driver']
+                if kind == 'R':
+                    if drv == 'parser':
+                        if objs[i] is None:
+                            objs[i] = common.PacketParser(recs[i])
+                        else:
+                            objs[i].reset()
+                    elif drv == 'source':
+                        if objs[i] is None:
+                            objs[i] = common.StreamPacketSource()
+                            objs[i].set_packet_sink(recs[i])
+                        else:
+                            objs[i].parser.reset()
+                    else:
+                        if objs[i] is None:
+                            objs[i] = await _open_server(drv)
+                            objs[i][0].source.set_packet_sink(recs[i])
+                        elif protos[i] is not None:
+                            protos[i].connection_lost(None)
+                        protos[i] = objs[i][1]()
+                        protos[i].connection_made(mock.MagicMock())
+                    continue
+                data = bytes(chunks[i][cidx][step[3]])
+                before = len(recs[i].packets)
+                err = None
+                try:
+                    if drv == 'parser':
+                        objs[i].feed_data(data)
+                    elif drv == 'source':
+                        objs[i].data_received(data)
+                    else:
+                        protos[i].data_received(data)
+                except Exception as e:           # noqa: BLE001
+                    err = classify_exc(e)
+                row = [['P', p] for p in recs[i].packets[before:]]
+                if err:
+                    row.append([err])
+                res[i][cidx][step[3]] = row
+        finally:
+            for task in asyncio.all_tasks():
+                if task is not asyncio.current_task():
+                    task.cancel()
+        return res
+    return asyncio.run(main())
+
+
+def model_multi_expr(c):
+    k = len(c['parsers'])
+    chunks = [[client_chunks(cl) for cl in pr['clients']] for pr in c['parsers']]
+    ops = []
+    for step in multi_plan(c):
+        i = step[0]
+        if step[1] == 'R':
+            ops.append(f'MReset {i}%nat')
+        else:
+            ops.append(f'MFeed {i}%nat {coq_zs(chunks[i][step[2]][step[3]])}')
+    return (f"multi_digest (snd (multi_run packet_info (repeat reset {k}%nat) [{'; '.join(ops)}]))")
+
+
+def _run_multi(ctx, c, mres):
+    impl = impl_multi(c)
+    plan = multi_plan(c)
+    # a switch to another parser while this one is inside a packet
+    mid = False
+    fed = {}
+    last = None
+    for step in plan:
+        i = step[0]
+        if last is not None and last != i and fed.get(last):
+            pr = c['parsers'][last]
+            cl = pr['clients'][fed[last][0]]
+            if splits_inside_packet(cl['descs'], [], fed[last][1]):
+                mid = True
+        if step[1] == 'D':
+            cl = c['parsers'][i]['clients'][step[2]]
+            n = sum(len(x) for x in client_chunks(cl)[:step[3] + 1])
+            fed[i] = (step[2], n)
+        else:
+            fed[i] = None
+        last = i
+    ctx.case(('multi', c['parsers'], c['schedule']), mid, c if ctx.evaluations % 300 == 17 else None)
+    ctx.count('multi.cases')
+    ctx.count('multi.parsers', len(c['parsers']))
+    ctx.count('multi.switch_mid_packet' if mid else 'multi.no_mid_packet_switch')
+    for pr in c['parsers']:
+        ctx.count('multi.driver.' + pr['driver'])
+    norm = [[norm_impl_outs(pc) for pc in per] for per in impl]
+    if mres is not None:
+        model = [[[None] * len(client_chunks(cl)) for cl in pr['clients']] for pr in c['parsers']]
+        steps = plan
+        if len(mres) != len(steps):
+            ctx.disagree('several parsers: op count', c, len(mres), len(steps))
+        else:
+            for step, (mi, mouts) in zip(steps, mres):
+                if step[1] == 'D':
+                    model[step[0]][step[2]][step[3]] = norm_model_outs([mouts])[0]
+            m = [[[[o for o in row if o[0] == 'P' or pr['driver'] == 'parser'] for row in pc] for pc in per]
+                 for per, pr in zip(model, c['parsers'])]
+            i_ = [[[[o for o in row if o[0] == 'P' or pr['driver'] == 'parser'] for row in pc] for pc in per]
+                  for per, pr in zip(norm, c['parsers'])]
+            if m != i_:
+                ctx.disagree('several parsers interleaved', c, _trim(m), _trim(i_))
+    for i, pr in enumerate(c['parsers']):
+        for cidx, cl in enumerate(pr['clients']):
+            exp = expected_per_chunk(cl['descs'], cl['sizes'], cl.get('cut'))
+            if exp is None:
+                continue
+            got = norm[i][cidx]
+            if pr['driver'] != 'parser':
+                exp = [[o for o in row if o[0] == 'P'] for row in exp]
+                got = [[o for o in row if o[0] == 'P'] for row in got]
+            if exp != got:
+                ctx.violation(f'independence:{pr["driver"]}',
+                              f'{len(c["parsers"])} framers in one process, operations interleaved: framer {i} '
+                              f'({pr["driver"]}), stream {cidx}: delivered {_trim(got)}, its own stream demands '
+                              f'{_trim(exp)}', c)
+                return
+
+
+def gen_multi_case(rng, k=None, drivers=None, psizes='tiny'):
+    k = k or rng.range(2, 4)
+    parsers = []
+    for i in range(k):
+        drv = (drivers or MULTI_DRIVERS)[rng.below(len(drivers or MULTI_DRIVERS))]
+        ncl = rng.choice([1, 1, 2, 3])
+        clients = []
+        for cidx in range(ncl):
+            descs = [gen_packet(rng, sizes=rng.choice([psizes, 'small'])) for _ in range(rng.range(1, 3))]
+            total = len(stream_of(descs))
+            cl = {'descs': descs}
+            if cidx < ncl - 1:
+                cl['cut'] = rng.range(0, total)          # reset / new connection while inside a packet
+            n = cl.get('cut', total)
+            cl['sizes'] = random_sizes(rng, n, rng.choice(['fine', 'fine', 'mid', 'split1', 'bytes']))
+            clients.append(cl)
+        parsers.append({'driver': drv, 'clients': clients})
+    nops = sum(len(multi_own_ops(pr)) for pr in parsers)
+    schedule = []
+    i = rng.below(k)
+    for _ in range(nops + k):
+        if rng.chance(2, 3):
+            i = rng.below(k)                              # switch (possibly mid-packet)
+        schedule.append(i)
+    return {'kind': 'multi', 'parsers': parsers, 'schedule': schedule}
+
+
+def exhaustive_multi_cases(shapes, full):
+    """two framers, A cut at every position around all of B (and around a reset /
+    construction of a third one); with `full` every ordered pair of shapes"""
+    out = []
+    pairs = list(itertools.product(shapes, repeat=2))
+    if not full:
+        pairs = pairs[::5]
+    for n, (sa, sb) in enumerate(pairs):
+        da = [list(sa), list(sb)]
+        db = [list(sb), list(sa)]
+        ta = len(stream_of(da))
+        tb = len(stream_of(db))
+        for cutp in range(ta + 1):
+            drv = MULTI_DRIVERS[(n + cutp) % 4]
+            drv2 = MULTI_DRIVERS[(n + 2 * cutp + 1) % 4]
+            A = {'driver': drv, 'clients': [{'descs': da, 'sizes': [cutp]}]}
+            B = {'driver': drv2, 'clients': [{'descs': db, 'sizes': [tb // 2]}]}
+            # A[:cut], B (two chunks), A[cut:]
+            out.append({'kind': 'multi', 'parsers': [A, B], 'schedule': [0, 1, 0, 1, 1, 0]})
+            # A[:cut], a third framer is constructed, fed and reset, A[cut:]
+            Cc = {'driver': drv2, 'clients': [{'descs': [list(sb)], 'cut': 1, 'sizes': [1]}, {'descs': [list(sb)], 'sizes': []}]}
+            out.append({'kind': 'multi', 'parsers': [A, Cc], 'schedule': [0, 0, 1, 1, 1, 1, 0]})
+    return out
+
+
 def push_case(descs, sizes, driver, raising_sink=False, probe=False, ext=None):
     if probe:
         total = len(stream_of(descs))
@@ -990,6 +1215,8 @@ def case_expr(c):
         lo, ls = c['params']
         return (f"let '(p, o) := split_feeds {lo} {ls} [] ({coq_chunks(c['descs'], c['sizes'])}) in "
                 f"(map (map digest) o, p)")
+    if k == 'multi':
+        return model_multi_expr(c)
     raise ValueError(k)
 
 
@@ -1008,6 +1235,8 @@ def run_case(ctx, c, mres):
                 _run_pull(ctx, c, mres)
             elif k == 'usb':
                 _run_usb(ctx, c, mres)
+            elif k == 'multi':
+                _run_multi(ctx, c, mres)
         except Hang:
             ctx.violation(f'hang:{k}:{c.get("driver") or c.get("transport") or c.get("reader") or c.get("via")}',
                           f'{k}: the framer does not terminate on this input', c)
@@ -1301,6 +1530,11 @@ def gen_cases(ctx, splitter_params):
         n = len(stream_of(descs))
         cases.append({'kind': 'usb', 'ty': ty, 'params': list(splitter_params[ty]), 'descs': descs,
                       'sizes': sorted([rng.range(0, 6), rng.range(0, n)])[:1] + [rng.range(0, 4096)], 'via': 'splitter'})
+    # G. several framers alive in one process, operations interleaved by the PRNG (switches
+    # inside packets; a framer constructed / reset / reconnected while others are mid-packet)
+    for i in range(ctx.n(100, 2000)):
+        cases.append(gen_multi_case(rng, psizes=rng.choice(['tiny', 'small'])))
+    cases.extend(exhaustive_multi_cases(SHAPES, full=not q))
     if not q:
         cases.extend(exhaustive_cases(splitter_params))
     return cases, ncorpus
@@ -1309,14 +1543,7 @@ def gen_cases(ctx, splitter_params):
 def exhaustive_cases(splitter_params):
     """thorough tier, complete small scope over 6 packet shapes (all five types, empty and
     non-empty bodies)"""
-    shapes = [
-        ['P', [4, 0x0e, 0], 0, 0],                 # event, empty
-        ['P', [4, 0x3e, 2, 9, 8], 0, 0],           # event, 2 bytes
-        ['P', [1, 3, 0x0c, 0], 0, 0],              # command, empty
-        ['P', [2, 1, 0x20, 1, 0, 0x55], 0, 0],     # ACL, 1 byte
-        ['P', [5, 1, 0, 0, 0], 0, 0],              # ISO, empty
-        ['P', [3, 1, 0, 1, 0x77], 0, 0],           # SCO, 1 byte
-    ]
+    shapes = SHAPES
     out = []
     # every stream of <= 3 packets x every split into <= 3 chunks
     for n in (1, 2, 3):
@@ -1482,6 +1709,10 @@ def oracle_only(ctx, params):
 def search(ctx):
     """directed search after a broken proof / correspondence: short streams, every split"""
     params = splitter_params_from_gen(ctx)
+    for c in exhaustive_multi_cases(SHAPES, full=True):
+        run_case(ctx, c, None)
+        if ctx.violations:
+            return
     for c in exhaustive_cases(params):
         if c['kind'] == 'push' and len(c['descs']) > 2:
             continue
@@ -1506,6 +1737,15 @@ def replay(ctx, obj):
         print('chunks:', [x.hex() for x in chunks][:40])
         print('delivered:', [[(o[0], o[1].hex()) if o[0] == 'P' else o for o in row]
                              for row in impl_push(chunks, c['driver'], c.get('raising_sink', False), c.get('ext'))][:40])
+    elif c['kind'] == 'multi':
+        for step in multi_plan(c):
+            pr = c['parsers'][step[0]]
+            if step[1] == 'R':
+                print(f'framer {step[0]} ({pr["driver"]}): construct / reset / connect')
+            else:
+                print(f'framer {step[0]} ({pr["driver"]}): feed', bytes(client_chunks(pr['clients'][step[2]])[step[3]]).hex())
+        print('delivered:', [[[[(o[0], o[1].hex()) if o[0] == 'P' else o for o in row] for row in pc] for pc in per]
+                             for per in impl_multi(c)])
     elif c['kind'] == 'server':
         for k, cl in enumerate(c['clients']):
             print(f'client {k} sends:', [x.hex() for x in client_chunks(cl)])
